@@ -5,7 +5,10 @@ package main
 
 import (
 	"fmt"
+	"runtime"
 	"strings"
+	"sync"
+	"sync/atomic"
 
 	"verif/harness/common"
 )
@@ -39,7 +42,216 @@ func main() {
 				coef[i] = rng.Uint64() | 1
 			}
 			runAffine(n, rng.Uint64(), coef)
+			if k < nargs/4 {
+				runNil(n, int(rng.Uint64()%97), rng.Uint64())
+			}
+			if k < nargs/10 {
+				runRecursive(n, rng.Uint64()%4096, coef, int(rng.Uint64()%uint64(n)))
+			}
 		}
+		coef := make([]uint64, 2*n)
+		for i := range coef {
+			coef[i] = rng.Uint64() | 1
+		}
+		runConcurrent(n, coef)
+	}
+}
+
+type nilErr struct{ tag int }
+
+func (e *nilErr) Error() string { return fmt.Sprint("e", e.tag) }
+
+// interface-typed stages with nil values flowing through (any, and int -> error -> int chains)
+func runNil(n, arg int, bits uint64) {
+	c := caseT{Family: "nil-interfaces", N: n, Arg: fmt.Sprint(arg, bits)}
+	// --- any chain: stage i returns nil when bit i is set, else a tagged value derived from its input
+	calls := make([]int, n)
+	step := func(i int, x any) any {
+		if bits>>uint(i)&1 == 1 {
+			return nil
+		}
+		return fmt.Sprint(x, "|", i)
+	}
+	fs := make([]func(any) any, n)
+	for i := range fs {
+		i := i
+		fs[i] = func(x any) any { calls[i]++; return step(i, x) }
+	}
+	var first any = arg
+	if bits>>63 == 1 {
+		first = nil // nil argument
+	}
+	want := first
+	for i := 0; i < n; i++ {
+		want = step(i, want)
+	}
+	var got any
+	p := common.Catch(func() { got = composeA(fs)(first) })
+	rec.Eval(fmt.Sprint("nil-any", n, arg, bits), true)
+	rec.Count("function_applications_observed", int64(sum(calls)))
+	if p != nil {
+		rec.Violate(fmt.Sprintf("C20/Pipe%d/panic", n), fmt.Sprintf("stages over `any` with nil values (nil pattern %b): %v", bits, p), c)
+	} else if got != want {
+		rec.Violate(fmt.Sprintf("C20/Pipe%d/result", n), fmt.Sprintf("any-chain: got %v want %v", got, want), c)
+	} else {
+		for i, k := range calls {
+			if k != 1 {
+				rec.Violate(fmt.Sprintf("C20/Pipe%d/calls", n), fmt.Sprintf("any-chain: f_%d applied %d times", i+1, k), c)
+			}
+		}
+	}
+	// --- int -> error -> int -> ...: nil errors in the middle and as the final result
+	calls2 := make([]int, n)
+	ie := func(i, x int) error {
+		calls2[i]++
+		if bits>>uint(i)&1 == 1 {
+			return nil
+		}
+		return &nilErr{x*7 + i}
+	}
+	ei := func(i int, e error) int {
+		calls2[i]++
+		if e == nil {
+			return -i
+		}
+		return e.(*nilErr).tag + 1
+	}
+	var wantE any
+	{
+		x := arg
+		var e error
+		for i := 0; i < n; i++ {
+			if i%2 == 0 {
+				if bits>>uint(i)&1 == 1 {
+					e = nil
+				} else {
+					e = &nilErr{x*7 + i}
+				}
+			} else {
+				if e == nil {
+					x = -i
+				} else {
+					x = e.(*nilErr).tag + 1
+				}
+			}
+		}
+		if n%2 == 1 {
+			wantE = e
+		} else {
+			wantE = x
+		}
+	}
+	var gotE any
+	p = common.Catch(func() { gotE = composeE(n, ie, ei)(arg) })
+	rec.Eval(fmt.Sprint("nil-err", n, arg, bits), true)
+	rec.Count("function_applications_observed", int64(sum(calls2)))
+	same := gotE == wantE
+	if ge, ok := gotE.(error); ok && !same {
+		if we, ok2 := wantE.(error); ok2 && ge != nil && we != nil {
+			same = ge.Error() == we.Error()
+		}
+	}
+	if gotE == nil && wantE != nil || gotE != nil && wantE == nil {
+		// a nil error boxed in any: compare through the interface
+		ge, _ := gotE.(error)
+		we, _ := wantE.(error)
+		same = ge == nil && we == nil
+	}
+	if p != nil {
+		rec.Violate(fmt.Sprintf("C20/Pipe%d/panic", n), fmt.Sprintf("int/error chain with nil errors (pattern %b): %v", bits, p), c)
+	} else if !same {
+		rec.Violate(fmt.Sprintf("C20/Pipe%d/result", n), fmt.Sprintf("int/error chain: got %v want %v", gotE, wantE), c)
+	} else {
+		for i, k := range calls2 {
+			if k != 1 {
+				rec.Violate(fmt.Sprintf("C20/Pipe%d/calls", n), fmt.Sprintf("int/error chain: f_%d applied %d times", i+1, k), c)
+			}
+		}
+	}
+}
+
+// a stage calls the composed function itself (re-entrancy): reference = the same recursion over a plain loop
+func runRecursive(n int, arg uint64, coef []uint64, at int) {
+	c := caseT{Family: "recursive", N: n, Arg: fmt.Sprint(arg, " recursive stage ", at), Coef: coef}
+	build := func(self *func(uint64) uint64) []func(uint64) uint64 {
+		fs := make([]func(uint64) uint64, n)
+		depth := 0
+		for i := range fs {
+			i := i
+			fs[i] = func(x uint64) uint64 {
+				y := x*coef[2*i] + coef[2*i+1]
+				if i == at && x%8 != 0 && depth < 3 {
+					depth++
+					y ^= (*self)(x % 4096) // re-enter the composed function (bounded depth)
+					depth--
+				}
+				return y % 1000003
+			}
+		}
+		return fs
+	}
+	var lib, ref func(uint64) uint64
+	lib = composeI(build(&lib))
+	rfs := build(&ref)
+	ref = func(a uint64) uint64 {
+		for _, f := range rfs {
+			a = f(a)
+		}
+		return a
+	}
+	var got uint64
+	p := common.Catch(func() { got = lib(arg) })
+	want := ref(arg)
+	rec.Eval(fmt.Sprint("rec", n, arg, at, coef[0]), true)
+	if p != nil {
+		rec.Violate(fmt.Sprintf("C20/Pipe%d/panic", n), fmt.Sprintf("recursive pipeline: %v", p), c)
+	} else if got != want {
+		rec.Violate(fmt.Sprintf("C20/Pipe%d/result", n), fmt.Sprintf("recursive pipeline (stage %d re-enters the composed function): got %d want %d", at+1, got, want), c)
+	}
+}
+
+// the composed function is a plain function value: concurrent calls must not disturb each other
+func runConcurrent(n int, coef []uint64) {
+	c := caseT{Family: "concurrent", N: n, Coef: coef}
+	fs := make([]func(uint64) uint64, n)
+	for i := range fs {
+		i := i
+		fs[i] = func(x uint64) uint64 {
+			if i%3 == 1 {
+				runtime.Gosched()
+			}
+			return x*coef[2*i] + coef[2*i+1]
+		}
+	}
+	f := composeI(fs)
+	var wg sync.WaitGroup
+	var bad atomic.Int64
+	for g := 0; g < 8; g++ {
+		wg.Add(1)
+		go func(g int) {
+			defer wg.Done()
+			defer func() {
+				if recover() != nil {
+					bad.Add(1)
+				}
+			}()
+			for k := 0; k < 300; k++ {
+				a := uint64(g*1000 + k)
+				want := a
+				for i := 0; i < n; i++ {
+					want = want*coef[2*i] + coef[2*i+1]
+				}
+				if f(a) != want {
+					bad.Add(1)
+				}
+			}
+		}(g)
+	}
+	wg.Wait()
+	rec.Eval(fmt.Sprint("conc", n, coef[0]), true)
+	rec.Count("concurrent_calls", 8*300)
+	if b := bad.Load(); b > 0 {
+		rec.Violate(fmt.Sprintf("C20/Pipe%d/result", n), fmt.Sprintf("%d of 2400 concurrent calls of one composed function returned a wrong value", b), c)
 	}
 }
 
